@@ -377,6 +377,64 @@ def kept_seq(target, n, keep, elem):
     return tuple(xs) if target == 'tuple' else xs
 
 
+def get_origin(ty):
+    import typing
+    try:
+        return typing.get_origin(ty)
+    except Exception:
+        return UNDEF
+
+
+def get_args(ty):
+    import typing
+    try:
+        return typing.get_args(ty)
+    except Exception:
+        return ()
+
+
+def issub(a, b):
+    try:
+        return issubclass(a, b)
+    except TypeError:
+        return False
+
+
+def isabstract(c):
+    import inspect
+    return inspect.isabstract(c)
+
+
+def callraises_as(cname, fn, *args, **kw):
+    import builtins
+    cls = getattr(builtins, cname, Exception)
+    try:
+        fn(*args, **kw)
+        return False
+    except cls:
+        return True
+    except Exception:
+        return False
+
+
+def rt_eq(a, b, _d=0):
+    """== of the model: Python equality, structural for converter objects that define no __eq__"""
+    try:
+        if a == b:
+            return True
+    except Exception:
+        pass
+    import pane.converters as _C
+    if isinstance(a, _C.Converter) and type(a) is type(b) and type(a).__eq__ is object.__eq__ and _d < 6:
+        da, db = vars(a), vars(b)
+        return da.keys() == db.keys() and all(rt_eq(da[k], db[k], _d + 1) for k in da)
+    if isinstance(a, (list, tuple)) and type(a) is type(b) and len(a) == len(b) and _d < 6:
+        return all(rt_eq(x, y, _d + 1) for x, y in zip(a, b))
+    if isinstance(a, dict) and isinstance(b, dict) and a.keys() == b.keys() and _d < 6:
+        return all(rt_eq(a[k], b[k], _d + 1) for k in a)
+    return False
+
+
 def forall_bools4(f):
     import itertools
     return all(f(*c) for c in itertools.product([False, True], repeat=4))
@@ -537,11 +595,22 @@ def namespace():
     ns['Tagged'] = _ann.Tagged
     import typing as _t
     ns['ANY'] = _t.Any
+    ns['ANNOTATED'] = _t.Annotated
+    ns['UNION'] = _t.Union
+    ns['LITERAL'] = _t.Literal
+    ns['ELLIPSIS'] = Ellipsis
+    ns['TypeVar'] = _t.TypeVar
+    ns['ForwardRef'] = _t.ForwardRef
     ns['NotImplementedV'] = NotImplemented
     _cv = importlib.import_module('pane.convert')
     ns['ConverterHandlers'] = _cv.ConverterHandlers
     import pane.converters as _C
-    ns['AnyConverter'] = _C.AnyConverter
+    for _n in ('AnyConverter', 'StructConverter', 'LiteralConverter', 'ScalarConverter', 'DelegateConverter', 'TupleConverter', 'UnionConverter'):
+        ns[_n] = getattr(_C, _n)
+    ns['BASIC_CONVERTERS'] = _C._BASIC_CONVERTERS
+    ns['BASIC_WITH_ARGS'] = _C._BASIC_WITH_ARGS
+    ns['GLOBAL_HANDLERS'] = _cv._GLOBAL_HANDLERS
+    ns['ABSTRACT_MAPPING'] = _cv._ABSTRACT_MAPPING
     try:
         import numpy as _np
         ns['ndarray'] = _np.ndarray
